@@ -130,6 +130,13 @@ func workloads() []workload {
 					[4]string{"X1", "P", "2", "M2"}, [4]string{"X2", "X1", "2", "M2"}, [4]string{"X3", "X2", "2", ""},
 					[4]string{"A4", "A3", "1", ""}, [4]string{"X4", "X3", "2", ""}, [4]string{"X5x", "X4", "2", ""})
 			}},
+		// a block that fails when connected directly on the tip: LocalAcceptBlock has already handed it to
+		// the block store (BlockAdd precedes CommitBlock), the head path of CommitBlock only unlinks the
+		// node, so the bytes stay on disk unflagged and come back as a heavier leaf at the next start
+		{name: "W9-block-refused-on-the-tip-stays-stored", events: []string{"A1", "A2x", "B2", "idle", "B3", "close"},
+			blocks: func(p *chainx.Prefix) ([]string, []*reftx.Block) {
+				return mk(p, [4]string{"A1", "P", "1", "M0"}, [4]string{"A2x", "A1", "1", "M0"}, [4]string{"B2", "A1", "2", "M1"}, [4]string{"B3", "B2", "2", ""})
+			}},
 		{name: "W5-side-branch-during-snapshot", events: []string{"A1", "A2", "idle-nowait", "B1", "idle", "A3", "close"},
 			blocks: func(p *chainx.Prefix) ([]string, []*reftx.Block) {
 				return mk(p, [4]string{"A1", "P", "1", "M0"}, [4]string{"A2", "A1", "1", "M1"}, [4]string{"B1", "P", "2", "M2"}, [4]string{"A3", "A2", "1", ""})
